@@ -218,12 +218,13 @@ Lemma run_herr_spec : forall W copy s, exists new,
 Proof.
   induction copy as [|c r IH]; intro s; simpl.
   - exists []. auto.
-  - match goal with |- context [run_herr W r ?S] => destruct (IH S) as [new [L [F Fr]]] end.
-    exists (new ++ [InvErr c]). split; [|split].
-    + rewrite L. destruct (W (ctr s)); simpl; rewrite <- app_assoc; reflexivity.
-    + rewrite filter_app, F. reflexivity.
-    + intros cn k N. rewrite Fr by auto. destruct (W (ctr s)); auto.
-      apply set_cbs_other. intro E. inversion E. contradiction.
+  - destruct (W (ctr s)) eqn:B;
+    (match goal with |- context [run_herr W r ?S] => destruct (IH S) as [new [L [F Fr]]] end;
+     exists (new ++ [InvErr c]); split; [|split];
+     [ rewrite L; simpl; rewrite <- app_assoc; reflexivity
+     | rewrite filter_app, F; reflexivity
+     | intros cn k N; rewrite Fr by auto;
+       try (rewrite set_cbs_other by (intro E; inversion E; contradiction)); reflexivity ]).
 Qed.
 
 Lemma run_upd_spec : forall W cn k pk e copy s, cn <> CHErr -> exists new,
@@ -243,7 +244,7 @@ Proof.
       exists (new ++ [InvUpd c cn pk e]). split; [|split].
       * rewrite L. simpl. rewrite <- app_assoc. reflexivity.
       * rewrite filter_app, F. reflexivity.
-      * intros. rewrite Fr by auto. apply set_cbs_other. auto.
+      * intros. rewrite Fr by auto. rewrite set_cbs_other by auto. reflexivity.
     + match goal with |- context [callback_herr W ?S] =>
         destruct (run_herr_spec W (cbs S CHErr KNode) S) as [nh [Lh [Fh Frh]]] end.
       match goal with |- context [run_upd W cn k pk e r ?S] => destruct (IH S N) as [new [L [F Fr]]] end.
@@ -376,4 +377,149 @@ Proof.
     apply cbname_eqb_eq in E1. apply ckey_eqb_eq in E2. subst. contradiction.
   - left. assert (cbname_eqb cn cn = true) as -> by (apply cbname_eqb_eq; auto).
     assert (ckey_eqb k k = true) as -> by (apply ckey_eqb_eq; auto). reflexivity.
+Qed.
+
+(* ------------------------------------------------------------------ identifier -> (module, parameter) *)
+Lemma assoc_last_In : forall {V} k (l : list (str * V)) v, assoc_last str_eqb k l = Some v -> In (k, v) l.
+Proof.
+  induction l as [|[k' v'] l IH]; simpl; intros v H; [discriminate|].
+  destruct (assoc_last str_eqb k l) eqn:E.
+  - inversion H; subst. right. apply IH. reflexivity.
+  - destruct (str_eqb k k') eqn:E2; [|discriminate]. inversion H; subst.
+    apply str_eqb_eq in E2. subst. left. reflexivity.
+Qed.
+Lemma assoc_last_None : forall {V} k (l : list (str * V)) v, assoc_last str_eqb k l = None -> ~ In (k, v) l.
+Proof.
+  induction l as [|[k' v'] l IH]; simpl; intros v H I; auto.
+  destruct (assoc_last str_eqb k l) eqn:E; [discriminate|].
+  destruct I as [I|I].
+  - inversion I; subst. rewrite str_eqb_refl in H. discriminate.
+  - eapply IH; eauto.
+Qed.
+Lemma assoc_last_det : forall {V} k (l : list (str * V)) v,
+  In (k, v) l -> (forall v', In (k, v') l -> v' = v) -> assoc_last str_eqb k l = Some v.
+Proof.
+  intros V k l v I U. destruct (assoc_last str_eqb k l) as [v'|] eqn:E.
+  - apply assoc_last_In in E. f_equal. auto.
+  - exfalso. eapply assoc_last_None; eauto.
+Qed.
+
+Lemma has_colon_mk_ident : forall m a, has_colon (mk_ident m a) = true.
+Proof.
+  intros. unfold has_colon, mk_ident. rewrite existsb_app. simpl. rewrite orb_true_r. reflexivity.
+Qed.
+Lemma mk_ident_inj : forall m m' a a',
+  has_colon m = false -> has_colon m' = false -> mk_ident m a = mk_ident m' a' -> m = m' /\ a = a'.
+Proof.
+  unfold mk_ident, has_colon.
+  induction m as [|x m IH]; destruct m' as [|y m']; intros a a' H1 H2 E.
+  - inversion E. auto.
+  - inversion E; subst. cbn [existsb] in H2. rewrite N.eqb_refl in H2. discriminate.
+  - inversion E; subst. cbn [existsb] in H1. rewrite N.eqb_refl in H1. discriminate.
+  - inversion E; subst. cbn [existsb] in H1, H2. apply orb_false_iff in H1, H2.
+    destruct H1 as [_ H1]. destruct H2 as [_ H2].
+    destruct (IH m' a a' H1 H2 H3). subst. auto.
+Qed.
+
+Definition colon_free (d : dsc) : Prop := forall m accs, In (m, accs) d -> has_colon m = false.
+
+Lemma internal_of_In : forall predef d k v,
+  In (k, v) (internal_of predef d) ->
+  exists m accs a, In (m, accs) d /\ In a accs /\ k = mk_ident m (a_name a) /\ v = (m, internalize predef (a_name a)).
+Proof.
+  intros predef d k v H. unfold internal_of in H. apply in_flat_map in H.
+  destruct H as [[m accs] [I1 I2]]. apply in_map_iff in I2. destruct I2 as [a [E I3]].
+  simpl in E. inversion E; subst. exists m, accs, a. auto.
+Qed.
+Lemma internal_of_lookup : forall predef d m accs a,
+  colon_free d -> In (m, accs) d -> In a accs ->
+  assoc_last str_eqb (mk_ident m (a_name a)) (internal_of predef d) = Some (m, internalize predef (a_name a)).
+Proof.
+  intros predef d m accs a CF I1 I2. apply assoc_last_det.
+  - unfold internal_of. apply in_flat_map. exists (m, accs). split; auto.
+    apply in_map_iff. exists a. auto.
+  - intros v' H. apply internal_of_In in H. destruct H as [m' [accs' [a' [J1 [J2 [E ->]]]]]].
+    apply mk_ident_inj in E; eauto. destruct E as [-> E]. rewrite E. reflexivity.
+Qed.
+
+Lemma resolve_full : forall predef classes names d m accs a act,
+  colon_free d -> In (m, accs) d -> In a accs ->
+  resolve (mk_client predef classes names d) act (Some (mk_ident m (a_name a))) = Some (m, internalize predef (a_name a)).
+Proof.
+  intros. unfold resolve. simpl. erewrite internal_of_lookup; eauto.
+Qed.
+
+Definition default_name (act : action) : str := match act with AChanged => s_target | _ => s_value end.
+Lemma internalize_default : forall predef act, internalize predef (default_name act) = default_name act.
+Proof. intros. destruct act; reflexivity. Qed.
+
+Lemma resolve_shorthand : forall predef classes names d m accs a act,
+  colon_free d -> In (m, accs) d -> In a accs -> a_name a = default_name act ->
+  resolve (mk_client predef classes names d) act (Some m) = Some (m, default_name act).
+Proof.
+  intros predef classes names d m accs a act CF I1 I2 E. unfold resolve. simpl.
+  destruct (assoc_last str_eqb m (internal_of predef d)) as [v|] eqn:D.
+  - exfalso. apply assoc_last_In in D. apply internal_of_In in D.
+    destruct D as [m' [accs' [a' [_ [_ [E' _]]]]]].
+    assert (has_colon m = true) by (rewrite E'; apply has_colon_mk_ident).
+    rewrite (CF _ _ I1) in H. discriminate.
+  - rewrite (CF _ _ I1).
+    fold (default_name act). rewrite <- E. erewrite internal_of_lookup; eauto.
+    rewrite E. rewrite internalize_default. reflexivity.
+Qed.
+
+Lemma resolve_unknown : forall predef classes names d act i,
+  (forall m accs a, In (m, accs) d -> In a accs -> i <> mk_ident m (a_name a)) ->
+  has_colon i = true ->
+  resolve (mk_client predef classes names d) act (Some i) = None.
+Proof.
+  intros predef classes names d act i U HC. unfold resolve. simpl.
+  destruct (assoc_last str_eqb i (internal_of predef d)) as [v|] eqn:D.
+  - exfalso. apply assoc_last_In in D. apply internal_of_In in D.
+    destruct D as [m' [accs' [a' [J1 [J2 [E' _]]]]]]. eapply U; eauto.
+  - rewrite HC. reflexivity.
+Qed.
+
+(* a message without identifier is about no parameter -- unless a module is called "None" *)
+Lemma resolve_no_ident : forall predef classes names d act,
+  colon_free d -> (forall m accs, In (m, accs) d -> m <> s_None) ->
+  resolve (mk_client predef classes names d) act None = None.
+Proof.
+  intros predef classes names d act CF NN. unfold resolve. simpl.
+  match goal with |- assoc_last str_eqb ?K ?L = None => destruct (assoc_last str_eqb K L) as [v|] eqn:D end; auto.
+  exfalso. apply assoc_last_In in D. apply internal_of_In in D.
+  destruct D as [m' [accs' [a' [J1 [J2 [E' _]]]]]].
+  fold (default_name act) in E'.
+  assert (mk_ident s_None (default_name act) = mk_ident m' (a_name a')) as E2 by exact E'.
+  apply mk_ident_inj in E2; [|reflexivity|eapply CF; eauto].
+  destruct E2 as [E2 _]. eapply NN; eauto.
+Qed.
+
+(* ------------------------------------------------------------------ write path *)
+Lemma e2e_write_roundtrip : forall exp_c imp_n exp_n imp_c v r,
+  (forall x, exists j, exp_c x = Some j /\ imp_n j = Some x) ->
+  (forall x, exists j, exp_n x = Some j /\ imp_c j = Some x) ->
+  e2e_write exp_c imp_n exp_n imp_c v r = (Some v, Some r).
+Proof.
+  intros exp_c imp_n exp_n imp_c v r H1 H2. unfold e2e_write.
+  destruct (H1 v) as [j [-> ->]]. destruct (H2 r) as [j' [-> ->]]. reflexivity.
+Qed.
+
+Lemma combine_fst_le : forall {A} (v prev : list A), length v <= length prev -> map fst (combine v prev) = v.
+Proof.
+  induction v as [|x v IH]; destruct prev as [|y prev]; simpl; intro L; auto; try lia.
+  f_equal. apply IH. lia.
+Qed.
+Lemma array_validate_exact : forall {A} (prev v : list A),
+  prev = [] \/ length v <= length prev -> array_validate prev v = v.
+Proof.
+  intros A prev v [->|L]; [reflexivity|].
+  unfold array_validate. destruct prev as [|y prev]; auto. apply combine_fst_le. exact L.
+Qed.
+Lemma array_validate_truncates : forall {A} (prev v : list A),
+  prev <> [] -> array_validate prev v = firstn (length prev) v.
+Proof.
+  intros A prev v N. unfold array_validate. destruct prev as [|y prev]; [contradiction|].
+  clear N. generalize (y :: prev). clear. intro p. revert p.
+  induction v as [|x v IH]; destruct p as [|z p]; simpl; auto. f_equal. apply IH.
 Qed.
